@@ -22,6 +22,8 @@ package backtrace
 // iteration).
 //  - a node that is a base case ends a trace: the trace is recorded (addTrace) and
 //    the node is not expanded;
+//  - a return-value, call, synthetic or bound-variable node that is expanded has its
+//    incoming edges followed (In() is consulted);
 //  - the jump from a READ of a global to the places where the global is written
 //    (any function, any calling context) drops the call stack: every node pushed in
 //    such an iteration has a nil call-stack trace. (A global write node is recognised
@@ -31,4 +33,9 @@ package backtrace
 //@   option havoc:*
 //@   requires v != nil && s != nil && entrypoint != nil
 //@   loop 1 body base_case_reported: called(isBaseCase, _, _) && retof(isBaseCase, _, _) ==> called(addTrace, _, _, _) && !called(addNext, _, _, _, _, _, _, _, _)
+//@   macro expanded() = (called(isBaseCase, _, _) && !retof(isBaseCase, _, _))
+//@   loop 1 body return_in_edges: istype(cur.Node, *dataflow.ReturnValNode) && expanded() ==> called(ReturnValNode.In, _)
+//@   loop 1 body call_in_edges: istype(cur.Node, *dataflow.CallNode) && expanded() ==> called(CallNode.In, _)
+//@   loop 1 body synthetic_in_edges: istype(cur.Node, *dataflow.SyntheticNode) && expanded() ==> called(SyntheticNode.In, _)
+//@   loop 1 body bound_var_in_edges: istype(cur.Node, *dataflow.BoundVarNode) && expanded() ==> called(BoundVarNode.In, _)
 //@   loop 1 body global_read_drops_call_stack: istype(cur.Node, *dataflow.AccessGlobalNode) && !called(AccessGlobalNode.In, _) ==> !called(addNext, _, _, _, _, where(x, x.Trace != nil), _, _, _)
